@@ -60,11 +60,23 @@ impl DcpsDomainParticipant {
             TopicKind::NoKey => USER_DEFINED_WRITER_NO_KEY,
         };
 
+        let Some(writer_key) = (0..=u16::MAX)
+            .map(|i| self.writer_counter.wrapping_add(i))
+            .find(|key| {
+                !publisher
+                    .data_writer_list
+                    .iter()
+                    .any(|w| [w.instance_handle[13], w.instance_handle[14]] == key.to_le_bytes())
+            })
+        else {
+            return Err(DdsError::OutOfResources);
+        };
+        self.writer_counter = writer_key.wrapping_add(1);
         let entity_id = EntityId::new(
             [
                 publisher.instance_handle[12],
-                self.writer_counter.to_le_bytes()[0],
-                self.writer_counter.to_le_bytes()[1],
+                writer_key.to_le_bytes()[0],
+                writer_key.to_le_bytes()[1],
             ],
             entity_kind,
         );
@@ -87,7 +99,6 @@ impl DcpsDomainParticipant {
             entity_id.entity_key()[2],
             entity_id.entity_kind(),
         ]);
-        self.writer_counter += 1;
 
         let qos = match qos {
             QosKind::Default => publisher.default_datawriter_qos.clone(),
